@@ -99,7 +99,7 @@ fn g_tobs(t: &Option<TObs>) -> String {
     match t {
         None => "NoT".into(),
         Some(t) => format!(
-            "(T {} {} {} {} {} {} {})",
+            "(T {} {} {} {} {} {})",
             if t.si { "SI" } else { "RC" },
             match t.status {
                 TxnStatus::Active => "Active",
@@ -109,9 +109,7 @@ fn g_tobs(t: &Option<TObs>) -> String {
             t.start,
             t.commit.map_or("NoV".to_string(), |v| format!("(V {})", v)),
             g_list(t.wn.iter().map(|x| g_n(*x))),
-            g_list(t.we.iter().map(|x| g_n(*x))),
-            // a table entry whose probe read returned nothing: 0 is never a read version
-            t.rv.unwrap_or(0)
+            g_list(t.we.iter().map(|x| g_n(*x)))
         ),
     }
 }
@@ -160,6 +158,7 @@ fn run_case(out: &mut Out, ctx: &mut Ctx, k: u64, ops: &[Op], tags: &str) {
     let mut si_stale = false;
     let mut gc_dropped = false;
     let mut prev_cur = store.current_version;
+    let mut last_table: Vec<Option<TObs>> = (0..k).map(|_| None).collect();
     let note = |bad: &mut Option<String>, s: String| {
         if bad.is_none() {
             *bad = Some(s);
@@ -379,7 +378,27 @@ fn run_case(out: &mut Out, ctx: &mut Ctx, k: u64, ops: &[Op], tags: &str) {
             }
             ts.push(t);
         }
-        obs.push(format!("Ob ({}) {} {}", g_res(&res), cur, g_list(ts.iter().map(g_tobs))));
+        // status code (0 = not in the table) and read version (0 = no answer) per id
+        let mut sts = 0u64;
+        let mut rvs = 0u128;
+        for (j, t) in ts.iter().enumerate() {
+            let (st, rv) = match t {
+                None => (0u64, 0u64),
+                Some(t) => (
+                    match t.status {
+                        TxnStatus::Active => 1,
+                        TxnStatus::Committed => 2,
+                        TxnStatus::Aborted => 3,
+                    },
+                    t.rv.unwrap_or(0),
+                ),
+            };
+            assert!(rv < 256 && j < 8, "packing bound");
+            sts += st << (2 * j);
+            rvs += (rv as u128) << (8 * j);
+        }
+        obs.push(format!("Ob ({}) {} {} {}", g_res(&res), cur, sts, rvs));
+        last_table = ts;
     }
     if n_ok > 0 {
         out.count("commit_ok");
@@ -410,7 +429,13 @@ fn run_case(out: &mut Out, ctx: &mut Ctx, k: u64, ops: &[Op], tags: &str) {
     }
     out.count_n("ops", ops.len() as u64);
     let human = format!("{} k={} [{}]", tags, k, ops.iter().map(h_op).collect::<Vec<_>>().join(" "));
-    let g = format!("Case {} {} {}", k, g_list(ops.iter().map(g_op)), g_list(obs.into_iter()));
+    let g = format!(
+        "Case {} {} {} {}",
+        k,
+        g_list(ops.iter().map(g_op)),
+        g_list(obs.into_iter()),
+        g_list(last_table.iter().map(g_tobs))
+    );
     let i = out.case(g, human.clone(), ops.iter().any(|o| matches!(o, Op::Commit(_))));
     if let Some(b) = bad {
         out.fail(i, &human, &b, None);
